@@ -132,7 +132,8 @@ def inject(text, cls, rng):
             return None
         a = rng.choice(non)[0]
         L[a] = "root " + L[a]
-        return "\n".join(L) + "\n", a + 1
+        # the offending declaration is the SECOND root in text order (definitions come in any order)
+        return "\n".join(L) + "\n", max([a] + [p[0] for p in pk if p[3]]) + 1
     if cls == "length_outside_root":
         # inside an inline object (of any packet, the root included) …
         inl = [i for i, l in enumerate(L) if re.match(r"    (repeat )?\w+ \{$", l)]
